@@ -210,12 +210,28 @@ func init() {
 		"fmt.Fprintln": extFprintln,
 		"fmt.Fprint":   extFprint,
 
+		// randomness: harnesses that depend on it stub it; the defaults are the identity
+		// shuffle and constant draws (recorded as a note on the path)
+		"math/rand.Seed":    nop,
+		"math/rand.Shuffle": func(fr *frame, a []value) value { fr.i.noteEnv("math/rand.Shuffle modelled as identity"); return nil },
+		"math/rand.Intn":    func(fr *frame, a []value) value { fr.i.noteEnv("math/rand.Intn modelled as 0"); return 0 },
+		"math/rand.Int":     func(fr *frame, a []value) value { fr.i.noteEnv("math/rand.Int modelled as 0"); return 0 },
+		"math/rand.Int63":   func(fr *frame, a []value) value { fr.i.noteEnv("math/rand.Int63 modelled as 0"); return int64(0) },
+		"math/rand.Int31n":  func(fr *frame, a []value) value { fr.i.noteEnv("math/rand.Int31n modelled as 0"); return int32(0) },
+		"math/rand.Uint32":  func(fr *frame, a []value) value { fr.i.noteEnv("math/rand.Uint32 modelled as 0"); return uint32(0) },
+
 		"sort.Slice":       extSortSlice,
 		"sort.SliceStable": extSortSlice,
 	} {
 		if v != nil {
 			externals[k] = v
 		}
+	}
+}
+
+func (in *interpreter) noteEnv(s string) {
+	if in.path != nil {
+		in.path.note(s)
 	}
 }
 
